@@ -44,7 +44,7 @@ var errHTInjected = errors.New("verif: injected read error")
 var htNames = []string{"a", "p", "div", "br", "IMG", "b", "span", "table", "x-y", "h1", "input", "select", "option", "foreignObject", "desc", "a\x00b", "p\xff"}
 var htRawNames = []string{"script", "style", "title", "textarea", "xmp", "iframe", "noembed", "noframes", "noscript", "plaintext"}
 var htAttrKeys = []string{"id", "class", "HREF", "a", "x:y", "data-x", "=", "k\x00", "k\xff", "ID", "b", "xlink:href", "a/b", "\"q"}
-var htWords = []string{"hello", " ", "world", "\n", "a<b", "x > y", "&amp;", "&lt", "&#x41;", "&#0;", "&#xD800;", "&notit;", "&", "<", "< ", "<3", "\x00", "\xff\xfe", "\xc3", "é", "\r\n", "\r", "]]>", "--", "'", "\"", "=", "/", "\t\f"}
+var htWords = []string{"hello", " ", "world", "\n", "a<b", "x > y", "&amp;", "&lt", "&#x41;", "&#0;", "&#xD800;", "&notit;", "&nGt;", "&nLt;", "&nGt", "&NotEqualTilde;", "&", "<", "< ", "<3", "\x00", "\xff\xfe", "\xc3", "é", "\r\n", "\r", "]]>", "--", "'", "\"", "=", "/", "\t\f"}
 var htScriptBits = []string{"x", "<!--", "-->", "<script", "</script", "</SCRIPT >", "<script>", "</scr", "ipt>", "-", "<", "/", "</script\t", " ", "\n", "var a='</script>';", "</style>", "</title>", "</TEXTAREA>", "</xmp", "<!-", "--!>", "\x00", "&amp;", "</", "</scriptx"}
 var htSoup = []byte("<>/!-='\" \t\n\r\f\x00&;#[]?aZsScCdD\x80\xff\xc3")
 
@@ -89,7 +89,7 @@ func htAttrs(c vs.Chooser, sb *strings.Builder) {
 		}
 		sb.WriteString(ws)
 		sb.WriteString(vs.Pick(c, htAttrKeys...))
-		val := vs.Pick(c, "v", "", "a b", "x>y", "a&amp;b", "/", "a/", "\x00", "\r\n", "'", "\"", "=", "&#x3c;", "\xff")
+		val := vs.Pick(c, "v", "", "a b", "x>y", "a&amp;b", "/", "a/", "\x00", "\r\n", "'", "\"", "=", "&#x3c;", "\xff", "x&nGt;", "&nLt;")
 		if vs.Pct(c, 6) {
 			val = htFiller(c)
 		}
